@@ -53,3 +53,44 @@ Proof.
   exact (conj (combined_pass_attr v m name orig im remove o cols H1 H2) (combined_end_info v m name orig im remove o)).
 Qed.
 Print Assumptions C09_pass_through.
+
+(* ---- the whole stream ---- *)
+From RS Require Import Stream.Tree Api.ApiTree Checkers.ChkTree Checkers.ChkCombined.
+From RS Require Proofs.AttrCodec Proofs.CombAllSpec Proofs.CombAllT12 Proofs.CombAllTop.
+
+(* every chunk of the combined streamer has the text and generated position of the corresponding
+   chunk of the outer splitter, and its resolved attribution is `resolve_combined` of the outer one
+   (CombAllSpec.v: through the last inner segment at or before the position, the name rule, the
+   fallback to the inner source itself, remove_original_source; other sources unchanged) - all
+   four option sets *)
+Theorem C09_whole_stream : forall v m name given im remove o,
+  CombAllT12.c09_wf v m name given im ->
+  rsegs_of_events (fst (combined_stream v m name given im remove o)) [] [] =
+  map (CombAllSpec.rc_seg (columns o) m im name given remove) (rsegs_of_events (fst (sm_stream v m o)) [] []).
+Proof. exact CombAllT12.combined_rsegs. Qed.
+Print Assumptions C09_whole_stream.
+
+(* announcements are dense, made before use, and a file is announced once *)
+Theorem C09_announcements : forall v m name given im remove o,
+  CombAllT12.c09_wf v m name given im ->
+  AttrCodec.dense (fst (combined_stream v m name given im remove o)) 0 0 = true /\
+  NoDup (map fst (contents_of_events (fst (combined_stream v m name given im remove o)))).
+Proof.
+  intros v m name given im remove o H.
+  exact (conj (CombAllT12.combined_dense v m name given im remove o H)
+              (CombAllT12.combined_sources_once v m name given im remove o H)).
+Qed.
+Print Assumptions C09_announcements.
+
+(* the extracted checker - the relational reference over the two decoded maps, both column
+   settings - accepts the model's own observations; c09_guards = the checker's own domain tests,
+   c09_extra = size bounds, a file name determines its content, no empty outer name (without the
+   last two the statement is false: CombAllTop.cex_a_in_domain_rejected, cex_b_in_domain_rejected;
+   the entry point chk_C09_all answers "out of domain" for them) *)
+Theorem C09_checker_accepts_model : forall v name m orig im remove,
+  CombAllTop.c09_guards v name m orig im remove = true ->
+  CombAllTop.c09_extra v name m orig im remove = true ->
+  let s := SMapped v name m orig (Some im) remove in
+  chk_C09 s (api_tree s []) = 0.
+Proof. exact CombAllTop.chk_C09_model. Qed.
+Print Assumptions C09_checker_accepts_model.
